@@ -121,9 +121,14 @@ def tuning(ctx, n_cases):
         if not np.allclose(tc.index.values, idx_exp):
             ctx.fail("oracle", "tuning-curve index is not the bin centres", inp, impl=tc.index.values.tolist(), expected=idx_exp)
         # discrete tuning curves: spikes inside / total duration
-        dd = {"a": nap.IntervalSet(np.array(st, float), np.array(en, float)), "b": nap.IntervalSet(np.array(est, float), np.array(een, float))}
+        # the dictionary is given in ANY key order (string or integer labels): each row is looked up by its label
+        sets = [(st, en), (est, een), ([st[0]], [en[0]])]
+        labels = rng.choice([["a", "b", "c"], [2, 0, 1], ["stimC", "stimA", "stimB"], [10, 3, 7]])
+        order = rng.sample(range(3), 3)
+        dd = {labels[i]: nap.IntervalSet(np.array(sets[i][0], float), np.array(sets[i][1], float)) for i in order}
         dt = nap.compute_discrete_tuning_curves(grp, dd)
-        for name, (a_, b_) in (("a", (st, en)), ("b", (est, een))):
+        ctx.count("discrete_dict_sorted" if [labels[i] for i in order] == sorted(labels) else "discrete_dict_unsorted")
+        for name, (a_, b_) in zip(labels, sets):
             for k in units:
                 n_in = sum(1 for s in units[k] if any(x <= s <= y for x, y in zip(a_, b_)))
                 if not np.isclose(dt.loc[name, k], n_in / float(sum(y - x for x, y in zip(a_, b_))), rtol=1e-12):
@@ -199,14 +204,15 @@ def decoding(ctx, n_cases):
         keys = sorted(rng.sample(range(0, 20), nu))
         tcv = npr.uniform(0.2, 6.0, size=(nb, nu))
         tcs = pd.DataFrame(index=centres, data=tcv, columns=keys)
-        ep = nap.IntervalSet(0.0, 20.0)
+        # the decoding epoch is the whole recording or only part of it; the occupancy prior is that of the feature passed
+        ep = [nap.IntervalSet(0.0, 20.0), nap.IntervalSet([2.0, 12.0], [8.0, 18.0]), nap.IntervalSet(4.0, 10.0)][(c // 2) % 3]
         units = {k: np.sort(npr.uniform(0, 20, size=rng.randint(0, 25))) for k in keys}
-        grp = nap.TsGroup({k: nap.Ts(v) for k, v in units.items()}, time_support=ep)
+        grp = nap.TsGroup({k: nap.Ts(v) for k, v in units.items()}, time_support=nap.IntervalSet(0.0, 20.0))
         bs = rng.choice([0.5, 1.0, 2.0])
         unit, f = rng.choice([("s", 1.0), ("ms", 1e3), ("us", 1e6)])
         with_feat = c % 2 == 0
         feat = nap.Tsd(np.arange(0, 20, 0.5), npr.uniform(0, nb, size=40)) if with_feat else None
-        inp = dict(level="decode_1d", nb_bins=nb, keys=keys, bin_size=bs, unit=unit, prior=with_feat)
+        inp = dict(level="decode_1d", nb_bins=nb, keys=keys, bin_size=bs, unit=unit, prior=with_feat, epoch=[list(map(float, ep.start)), list(map(float, ep.end))])
         ctx.case(("d1", c, nb, nu, bs, unit, with_feat), inp if c % 17 == 0 else None)
         form = c % 3
         try:
